@@ -203,12 +203,12 @@ def tables(ctx, obs, rule='TAB'):
     sets = {}
     for q in POOLS + ['rdm.compare.compare']:
         f = prog.func(q)
-        keys = {}
-        for s in ast.walk(f.node):
-            if isinstance(s, ast.If):
-                for k in _keys(s.test, 'method'):
-                    keys.setdefault(k, s)
+        from ..rules.common import string_dispatch
+        form, arms = string_dispatch(f, 'method')
+        keys = {k: v[0] for k, v in arms.items()}
         sets[q] = keys
+        forms = locals().setdefault('_forms', {})
+        forms[q] = form
         # chain ends in raise
         tails = [s for s in ast.walk(f.node) if isinstance(s, ast.If) and _keys(s.test, 'method')
                  and not (len(s.orelse) == 1 and isinstance(s.orelse[0], ast.If))]
@@ -220,10 +220,15 @@ def tables(ctx, obs, rule='TAB'):
     need = ['cosine', 'corr', 'rho-a', 'cosine_cov', 'corr_cov', 'spearman', 'kendall', 'tau-b', 'tau-a']
     for q in POOLS:
         f = prog.func(q)
+        if not sets[q]:
+            obs.unk(rule, q, 'pooling rules per method', 'dispatch on `method` not recognised', where(prog, f, f.node))
+            continue
         for k in need:
             obs.check(k in sets[q], rule, q, f'pooling rule for method {k!r}', f'{q} has no arm for {k!r}: the noise ceiling '
                       f'for this measure raises / is undefined', '', where(prog, f, f.node))
         for k in sets[q]:
+            if not sets['rdm.compare.compare']:
+                break          # compare()'s dispatch is not recognisable: nothing to cross-check against
             obs.check(k in sets['rdm.compare.compare'] or k == 'euclid', rule, q, f'pooled method {k!r} is a compare() method',
                       f'{k!r} is pooled but compare() has no such method', '', where(prog, f, sets[q][k]))
     for k in sorted(set(sets[a]) ^ set(sets[b])):
